@@ -1,10 +1,27 @@
 package expr
 
 import (
+	"errors"
 	"fmt"
 
+	"github.com/shopspring/decimal"
 	"github.com/verily-src/fhirpath-go/fhirpath/system"
 )
+
+// errDivideByZero is raised by the division operators when the divisor is zero.
+// Division by zero evaluates to an empty collection.
+var errDivideByZero = errors.New("division by zero")
+
+// isZero returns true if the given value is an Integer or Decimal equal to zero.
+func isZero(value system.Any) bool {
+	switch v := value.(type) {
+	case system.Integer:
+		return v == 0
+	case system.Decimal:
+		return decimal.Decimal(v).IsZero()
+	}
+	return false
+}
 
 // EvaluateAdd takes in two system types, and calls the appropriate Add method.
 func EvaluateAdd(lhs, rhs system.Any) (system.Any, error) {
@@ -118,6 +135,9 @@ func EvaluateDiv(lhs, rhs system.Any) (system.Any, error) {
 	switch left := lhs.(type) {
 	case system.Integer:
 		if right, ok := rhs.(system.Integer); ok {
+			if isZero(right) {
+				return nil, errDivideByZero
+			}
 			return left.Div(right), nil
 		}
 		if _, ok := rhs.(system.Quantity); ok {
@@ -126,6 +146,9 @@ func EvaluateDiv(lhs, rhs system.Any) (system.Any, error) {
 		return nil, typeMismatch(Div, lhs, rhs)
 	case system.Decimal:
 		if right, ok := rhs.(system.Decimal); ok {
+			if isZero(right) {
+				return nil, errDivideByZero
+			}
 			return left.Div(right), nil
 		}
 		if _, ok := rhs.(system.Quantity); ok {
@@ -144,6 +167,9 @@ func EvaluateFloorDiv(lhs, rhs system.Any) (system.Any, error) {
 	switch left := lhs.(type) {
 	case system.Integer:
 		if right, ok := rhs.(system.Integer); ok {
+			if isZero(right) {
+				return nil, errDivideByZero
+			}
 			return left.FloorDiv(right), nil
 		}
 		if _, ok := rhs.(system.Quantity); ok {
@@ -152,6 +178,9 @@ func EvaluateFloorDiv(lhs, rhs system.Any) (system.Any, error) {
 		return nil, typeMismatch(FloorDiv, lhs, rhs)
 	case system.Decimal:
 		if right, ok := rhs.(system.Decimal); ok {
+			if isZero(right) {
+				return nil, errDivideByZero
+			}
 			return left.FloorDiv(right)
 		}
 		if _, ok := rhs.(system.Quantity); ok {
@@ -170,6 +199,9 @@ func EvaluateMod(lhs, rhs system.Any) (system.Any, error) {
 	switch left := lhs.(type) {
 	case system.Integer:
 		if right, ok := rhs.(system.Integer); ok {
+			if isZero(right) {
+				return nil, errDivideByZero
+			}
 			return left.Mod(right), nil
 		}
 		if _, ok := rhs.(system.Quantity); ok {
@@ -178,6 +210,9 @@ func EvaluateMod(lhs, rhs system.Any) (system.Any, error) {
 		return nil, typeMismatch(Mod, lhs, rhs)
 	case system.Decimal:
 		if right, ok := rhs.(system.Decimal); ok {
+			if isZero(right) {
+				return nil, errDivideByZero
+			}
 			return left.Mod(right), nil
 		}
 		if _, ok := rhs.(system.Quantity); ok {
